@@ -12,7 +12,8 @@
    C10_read_session_terminates: the same for the whole sequential read session — header, inflating stage
    (cont_loop over the std::fstream flavour: every accepted container lies inside the file and moves the
    position on by at least its 16-byte base header) and parser stage — for EVERY file content, every cap and
-   whatever zlib answers.
+   whatever zlib answers.  A signature search that does not end is an error of its own in the model (Err ESpin, mapped to
+   EndFuel by the two loops), so the theorems also say that the search of ObjectHeaderBase::read ends on every input.
    PARTIAL: memory-safety outside the decoders (container copy in UncompressedFile, zlib) is decided by
    differential execution under ASan/UBSan + watchdog on truncations, field mutations and
    hand-assembled hostile headers. *)
@@ -57,8 +58,8 @@ Print Assumptions C10_parser_terminates.
    begins with that search and only seeks forward *)
 Theorem C10_termination_premises :
   rules_ok scan_p = true /\ ohb_shape cs (prog_of cs C_ohb M_read) = true /\
-  forallb (fun p => (snd p =? 0)%Z || class_ok cs (snd p)) factory_table = true.
-Proof. split; [exact scan_rules_back_at_most_3|]. split; [exact ohb_reader_shape|exact factory_classes_ok_b]. Qed.
+  forallb (fun p => (snd p =? 0)%Z || class_ok cs (snd p)) factory_table = true /\ sp_stop_on_fail scan_p = true.
+Proof. split; [exact scan_rules_back_at_most_3|]. split; [exact ohb_reader_shape|]. split; [exact factory_classes_ok_b|exact scan_stops_on_failed_stream]. Qed.
 Print Assumptions C10_termination_premises.
 
 (* the whole read session never hangs: for every file content, every allocation cap, whatever zlib answers *)
